@@ -83,6 +83,49 @@ theorem buildDict_edge (transitions : List (List Nat)) (labels : List (List Char
       refine ⟨List.mem_iff_getElem?.2 ⟨j, ?_⟩, by simpa using hne⟩
       rw [List.getElem?_zip_eq_some]; exact ⟨hl, hw⟩
 
+/-! ### record → automaton (`fsa._from_gap_record`) -/
+
+theorem mapM_str (labels : List (List Char)) :
+    (labels.map GVal.str).mapM (fun | .str s => some s | _ => none) = some labels := by
+  induction labels with
+  | nil => rfl
+  | cons a l ih => simp [List.mapM_cons, ih]
+
+theorem mapM_int (row : List Nat) :
+    (row.map GVal.int).mapM (fun | .int n => some n | _ => none) = some row := by
+  induction row with
+  | nil => rfl
+  | cons a l ih => simp [List.mapM_cons, ih]
+
+theorem asStrList_strs (labels : List (List Char)) : asStrList (.list (labels.map .str)) = some labels :=
+  mapM_str labels
+
+theorem asNatList_ints (row : List Nat) : asNatList (.list (row.map .int)) = some row :=
+  mapM_int row
+
+theorem mapM_rows (rows : List (List Nat)) :
+    (rows.map fun r => GVal.list (r.map GVal.int)).mapM asNatList = some rows := by
+  induction rows with
+  | nil => rfl
+  | cons a l ih =>
+    rw [List.map_cons, List.mapM_cons, asNatList_ints, ih]; rfl
+
+/-- a parsed file whose record says `isFSA := true`, lists the alphabet names, the dense
+transition table and the initial states yields exactly `build_dict(table, names, [0])` and
+those initial states -/
+theorem from_gap_record_spec (name : List Char) (d alpha table : List (List Char × GVal))
+    (labels : List (List Char)) (rows : List (List Nat)) (init : List Nat)
+    (h1 : lookupField d "isFSA" = some (.str "true".toList))
+    (h2 : lookupField d "alphabet" = some (.record alpha))
+    (h3 : lookupField alpha "names" = some (.list (labels.map .str)))
+    (h4 : lookupField d "table" = some (.record table))
+    (h5 : lookupField table "transitions" = some (.list (rows.map fun r => .list (r.map .int))))
+    (h6 : lookupField d "initial" = some (.list (init.map .int))) :
+    fromGapRecord [(name, .record d)] = some (buildDict rows labels, init) := by
+  unfold fromGapRecord
+  simp only [List.findSome?_cons, h1, h2, h3, h4, h5, h6, asStrList_strs, asNatList_ints, mapM_rows,
+    Option.bind_some, beq_self_eq_true, if_true, bind]
+
 /-! ### non-vacuity: a concrete kbmag-style text in the grammar -/
 
 /-- `rec(\n isFSA := true, names := [a,A] , acc := [1..2],t:=[[2,0], [0 ,1]])` as a syntax tree -/
